@@ -8,6 +8,9 @@ from .core import *
 FAMILIES = {
     "compile": ("MC_Compile", None),
     "scoping": ("MC_Scoping", None),
+    "fold": ("MC_Fold", None),
+    "forwhile": ("MC_ForWhile", None),
+    "static": ("MC_Static", None),
 }
 
 
